@@ -150,6 +150,8 @@ def _region(ctx, cf, rel, fname, fn, d):
                                 if v["kind"] == "VarDecl":
                                     loopvars.add(v.get("name"))
                     break
+    rn = fn.get("_rename", {}) if isinstance(fn, dict) else {}
+    private = {rn.get(x, x) for x in private}
     if not loopvars:
         # hand-written distribution of the frame loop: accepted only when start and stride are the thread number and the
         # size of the team that is actually running (both read inside the region)
